@@ -11,6 +11,7 @@ import numpy as np
 from rv import core, zoo, monitors
 
 LEVEL = 'exploration'
+LEVEL_TEXT = 'Bitwise oracle: every event that sat at an original range limit must have exactly the value of the new limit after to_rfi/to_mef/transform, and the real default saturation gate must commute with the conversions; evaluated on tens of thousands of amplifier/curve parameter draws. Exploration (numerical outcome depends on the NumPy build, recorded in evidence).'
 TECHNIQUE = 'runtime contract on conversions (bitwise limit-vs-saturated-event oracle) + commutation checker of two real pipelines'
 RULE = ('integer samples with events at 0, 1, R-2, R-1 in every channel x R in {2^8..2^18,1000,1023} x amplifier '
         'settings x standard curves m in [0.85,1.25], b in [0,7] x channel subsets; non-trivial = a log channel or a '
